@@ -139,6 +139,7 @@ def check(repo: Repo, R) -> None:
     # ---- 3 / 5 comparisons
     rule = "C14.3-comparisons-total-and-consistent"
     helpers = set()
+    sigs: Dict[str, list] = {}
     for name, op in CMP.items():
         m = ci.methods.get(name)
         if m is None:
@@ -157,6 +158,19 @@ def check(repo: Repo, R) -> None:
         total = not offenders
         # sibling shape: return <helper>(self, other) <op> 0
         rv = _single_return(m)
+        from . import shared as _sh0
+        m_alts = [(v_, c_) for r_ in _sh0.returns_of(m.node) if r_.value is not None for v_, c_ in _sh0.alternatives(m.node, r_.value, _sh0.path_conditions(m.node, r_), at=r_)]
+        sigs[name] = sorted({(" and ".join(sorted(("" if p_ else "not ") + ast.unparse(t_) for t_, p_ in _sh0.resolved_conditions(m.node, c_))),
+                              ast.unparse(v_.left) if isinstance(v_, ast.Compare) and len(v_.ops) == 1 else ast.unparse(v_),
+                              ast.unparse(v_.comparators[0]) if isinstance(v_, ast.Compare) and len(v_.ops) == 1 else "") for v_, c_ in m_alts})
+        if rv is None and len(m_alts) > 1:
+            # decided under conditions: the unconditional-looking alternative (the shared helper, if any) is judged as usual;
+            # the agreement of the six operators on the conditional ones is judged below
+            wrong = [ast.unparse(v_) for v_, _c in m_alts if not (isinstance(v_, ast.Compare) and len(v_.ops) == 1 and type(v_.ops[0]) is op)]
+            if wrong:
+                R.bad(rule, key_of(m, "operator"), m.site, f"{name} returns `{wrong[0][:80]}`: not a comparison by `{op.__name__}`", "the operator answers another question than its name")
+            hs_ = [v_ for v_, _c in m_alts if isinstance(v_, ast.Compare) and isinstance(v_.left, ast.Call) and ast.unparse(v_.comparators[0]) == "0"]
+            rv = hs_[0] if hs_ else m_alts[0][0]
         shape = False
         helper = None
         if isinstance(rv, ast.Compare) and len(rv.ops) == 1 and isinstance(rv.left, ast.Call) and ast.unparse(rv.comparators[0]) == "0":
@@ -180,6 +194,17 @@ def check(repo: Repo, R) -> None:
                 + ("; nothing below it rounds or quantizes" if total else f"; RAISING OPERATION reachable: {offenders[0]}"),
                 why="`1*UNIT > 1*n` raises decimal.InvalidOperation (round(Decimal, 20) needs more than the context's 28 digits once operands are ~8 decades apart); "
                 "or the six operators disagree (trichotomy fails)")
+    # the six operators decide the same way under the same conditions: they differ in the operator alone
+    if len(sigs) == len(CMP):
+        ref = sigs["__eq__"]
+        odd = sorted(n_ for n_, sg in sigs.items() if sg != ref)
+        how = ""
+        if odd:
+            extra = [x for x in sigs[odd[0]] if x not in ref] or [x for x in ref if x not in sigs[odd[0]]]
+            how = f"{odd[0]} compares `{extra[0][1]}` with `{extra[0][2]}`" + (f" when {extra[0][0]}" if extra[0][0] else "") + "; __eq__ does not"
+        R.check(not odd, rule, f"{F_PREFIX}::Prefixed::siblings-decide-alike", ci.site,
+                "all six comparison operators compare the same two quantities under the same conditions" if not odd else f"the comparison operators do not decide alike: {how}",
+                why="an exact short cut in one operator beside tolerant siblings: for two values closer than the tolerance `a < b` and `a == b` both hold, and `b > a` does not")
     if helpers == {"<direct>"}:
         pass
     elif len(helpers) == 1:
